@@ -7,23 +7,26 @@ UpdateCollection(...).messages(negotiated) and decodes every emitted message wit
 RFC 4271 5 default table written below; z3 decides them for all values on the path.
 
 Units
-  <family>/<kind>      : family in ipv4-unicast, ipv6-unicast, ipv4-nlri-mpls, ipv4-mpls-vpn (+ ipv6-mpls-vpn thorough);
-                         kind in ibgp (65000/65000), ebgp (65000/65001), and for ipv4-unicast also ebgp-local4 (70000/65001),
-                         ibgp4 (70000/70000), ebgp-peer4 (65000/70000).  Inside: peer ASN4 on/off, ADD-PATH send on/off x
-                         route with/without path-id, extended-next-hop + extended-message on/off, attribute profile,
-                         prefix-length class.
-  long-path/<kind>     : AS_PATH of 65 ASNs (> 255 octets with 4-octet ASNs): the Extended Length encoding.
-  nexthop-self/<shape> : "next-hop self" through the real configuration text (concrete route) and through
-                         Neighbor.resolve_self on a symbolic route.
-  two/<family>         : (thorough) two NLRIs with one next hop, two NLRIs with two next hops.
-  nh6/<family>         : (thorough) IPv6 next hop for IPv4 / VPN-IPv4 NLRI (RFC 8950) with and without the capability.
+  <family>/<kind>      : family in ipv4-unicast, ipv6-unicast, ipv4-nlri-mpls, ipv4-mpls-vpn (+ ipv6-nlri-mpls, ipv6-mpls-vpn thorough);
+                         kind in ibgp (65000/65000), ebgp (65000/65001), ebgp-local4 (70000/65001), ibgp4 (70000/70000),
+                         ebgp-peer4 (65000/70000).  Inside (ctx.pick): peer ASN4 on/off, ADD-PATH send on/off x route with/without
+                         path-id, extended-next-hop x extended-message, attribute profile, prefix-length class, 1-2 labels.
+  long-path/<f>/<kind> : AS_PATH of 65 ASNs (> 255 octets with 4-octet ASNs): the Extended Length encoding.
+  nexthop-self/<f>     : "next-hop self" through the real configuration text (concrete route) and through
+                         Neighbor.resolve_self on a symbolic route carrying the IPSelf / NextHopSelf sentinels.
+  two/<f>/...          : (thorough) two NLRIs with one next hop, two NLRIs with two next hops.
+  nh6/<f>              : IPv6 next hop for IPv4 / labelled / VPN-IPv4 NLRI (RFC 8950) with and without the capability.
+
+Signatures ending in ':local-as-is-as-trans' are consequences of DESIGN section 4 F9 (Negotiated.local_as read from the 2-octet
+OPEN field).  'C01:as-path:4-byte-asn-refused-by-parser-factory:*' is the F10 mechanism (make_aspath defaults to 2-octet packing)
+reached through static.parser.as_path.
 """
 from __future__ import annotations
 
 import socket as _socket
 
 from sx.run import Unit
-from sx.core import sx_eq, s_and, s_or, s_not, s_ite
+from sx.core import sx_eq, s_and, s_or, s_not, s_ite, from_parts
 from oracle import update as O
 from kits import session as K
 
@@ -79,15 +82,22 @@ ASSUMPTIONS = [
     'communities are compared as sets (RFC 1997/4360/8092 give no meaning to order or repetition)',
 ]
 BOUNDS = {
-    'quick': {'nlri': 'one NLRI per UPDATE; every prefix-length class of IPv4 (0,1-8,...,25-32) / IPv6 (0,1-8,57-64,121-128), all prefix '
-                      'octets symbolic; path-id 32 bit; 1-2 labels of 20 bit; RD 8 symbolic octets; next hop 4/16 symbolic octets',
-              'attributes': 'profiles: defaults | ORIGIN+AS_PATH(1 ASN)+MED+LOCAL_PREF | AS_PATH(2 segments, 3 ASNs, both factories)'
-                            '+ATOMIC_AGGREGATE+AGGREGATOR | 2 communities+2 large+2 extended+ORIGINATOR_ID+CLUSTER_LIST; ASNs 32 bit',
-              'sessions': 'iBGP/eBGP x peer ASN4 on/off x ADD-PATH send on/off x {plain, extended-nexthop+extended-message}; 4-byte local / '
-                          'peer AS shapes on ipv4 unicast'},
-    'thorough': {'nlri': 'same + every IPv6 prefix-length class, ipv6 mpls-vpn, two NLRIs, two next hops, IPv6 next hop for IPv4 NLRI',
-                 'attributes': 'same + AS_PATH with 3 ASNs in one segment, all attributes together',
-                 'sessions': 'full cross of extended-nexthop x extended-message; 4-byte AS shapes on every family'},
+    'quick': {'nlri': 'one NLRI per UPDATE; every prefix length of IPv4 (0..32) and IPv6 (0..128), grouped by octet count, all prefix octets '
+                      'symbolic; path-id 32 bit; 1-2 labels of 20 bit; RD 8 symbolic octets; next hop 4/16 symbolic octets; crossed with the '
+                      'session in the "defaults" profile, one length class (17-24 / 41-48) and one label in the other profiles',
+              'attributes': 'profiles: defaults | ORIGIN+AS_PATH(1 ASN)+MED+LOCAL_PREF | AS_PATH(SEQUENCE 1 + SET 2, both factories)+ATOMIC_AGGREGATE'
+                            '+AGGREGATOR | 2 communities+2 large+2 extended+ORIGINATOR_ID+CLUSTER_LIST | AS_PATH(3 ASNs) ; long-path: 65 ASNs; '
+                            'every ASN / MED / LOCAL_PREF 32 bit symbolic',
+              'sessions': '{iBGP 65000/65000, eBGP 65000/65001, eBGP local 70000, iBGP 70000/70000, eBGP peer 70000} x peer ASN4 on/off x '
+                          'ADD-PATH send on/off x route with/without path-id x extended-nexthop on/off (AFI 1) x extended-message on/off',
+              'families': 'ipv4 unicast, ipv6 unicast, ipv4 nlri-mpls, ipv4 mpls-vpn; IPv6 next hop for IPv4 / labelled / VPN-IPv4 NLRI (RFC 8950) with '
+                          'and without the capability'},
+    'thorough': {'nlri': 'same, the NLRI dimensions also crossed with the basic/seq3/communities profiles (IPv4) or basic (IPv6); two NLRIs '
+                         'with one next hop, two NLRIs with two next hops (IPv4: every pair of length classes; IPv6: classes 0, 1-8, 57-64, 121-128; second '
+                         'NLRI one label)',
+                 'attributes': 'same + all attributes together',
+                 'sessions': 'same',
+                 'families': 'same + ipv6 nlri-mpls, ipv6 mpls-vpn'},
 }
 OUTSIDE = [
     'text -> object: numerals, keywords and separators through the real configuration/API tokenisers (property C18); here the '
@@ -107,6 +117,7 @@ FAMILIES = {
     'ipv6-unicast': dict(name='ipv6 unicast', afi=2, safi=1, alen=16),
     'ipv4-nlri-mpls': dict(name='ipv4 nlri-mpls', afi=1, safi=4, alen=4),
     'ipv4-mpls-vpn': dict(name='ipv4 mpls-vpn', afi=1, safi=128, alen=4),
+    'ipv6-nlri-mpls': dict(name='ipv6 nlri-mpls', afi=2, safi=4, alen=16),
     'ipv6-mpls-vpn': dict(name='ipv6 mpls-vpn', afi=2, safi=128, alen=16),
 }
 KINDS = {
@@ -122,11 +133,8 @@ def decider(ctx):
 
 
 def mask_classes(alen, tier):
-    if alen == 4:
-        return [(0, 0), (1, 8), (9, 16), (17, 24), (25, 32)]
-    if tier == 'thorough':
-        return [(0, 0)] + [(8 * k + 1, 8 * k + 8) for k in range(16)]
-    return [(0, 0), (1, 8), (57, 64), (121, 128)]
+    """every prefix length, grouped by the number of prefix octets on the wire (the mask stays symbolic inside a class)"""
+    return [(0, 0)] + [(8 * k + 1, 8 * k + 8) for k in range(alen)]
 
 
 # ----------------------------------------------------------------------------- session shapes
@@ -169,16 +177,21 @@ def session_sane(ctx, neg, facts, fam):
 # ----------------------------------------------------------------------------- requested route (real factories on carriers)
 
 
-def mk_nlri(ctx, fam, tier, has_pid, tag=''):
-    """-> (nlri, req) ; req holds the requested terms."""
+def mk_nlri(ctx, fam, tier, has_pid, tag='', vary=True, classes=None, nlabels=(1, 2)):
+    """-> (nlri, req) ; req holds the requested terms.  vary=False: one prefix-length class and one label only (the NLRI
+    dimensions are crossed with the session in the 'defaults' profile, the attribute profiles keep them narrow)."""
     alen = fam['alen']
-    lo, hi = ctx.pick('mask-class' + tag, mask_classes(alen, tier))
+    if vary:
+        lo, hi = ctx.pick('mask-class' + tag, classes or mask_classes(alen, tier))
+    else:
+        lo, hi = (17, 24) if alen == 4 else (41, 48)
     mask = ctx.int('mask' + tag, lo, hi)
     pbytes = ctx.bytes('prefix' + tag, alen)
-    req = {'mask': mask, 'prefix': pbytes, 'pid': None, 'labels': None, 'rd': None}
+    req = {'mask': mask, 'prefix': pbytes, 'pid': None, 'labels': None, 'rd': None, 'size': (hi + 7) // 8}
     path_info = PathInfo.DISABLED
     if has_pid:
-        pid = ctx.int('path-id' + tag, 0, 2 ** 32 - 1)
+        pidb = ctx.bytes('path-id' + tag, 4)  # any 32-bit integer, introduced by its four octets so that shifts stay linear
+        pid = from_parts(pidb.items) if ctx.sym else int.from_bytes(pidb, 'big')
         req['pid'] = pid
         path_info = PathInfo.make_from_integer(pid)  # static.parser.path_information
     cidr = CIDR.create_cidr(pbytes, mask)  # static.parser.inet / mpls
@@ -186,7 +199,7 @@ def mk_nlri(ctx, fam, tier, has_pid, tag=''):
     if fam['safi'] == 1:
         nlri = INET.from_cidr(cidr, afi, SAFI.unicast, path_info)
     else:
-        nl = ctx.pick('labels' + tag, [1, 2])
+        nl = ctx.pick('labels' + tag, list(nlabels)) if vary and len(nlabels) > 1 else nlabels[0]
         labs = [ctx.int('label%d%s' % (i, tag), 0, 2 ** 20 - 1) for i in range(nl)]
         req['labels'] = labs
         labels = Labels.make_labels(labs)  # static.mpls.label
@@ -205,8 +218,8 @@ def mk_nexthop(ctx, n, tag=''):
     return nh, ip
 
 
-PROFILES_QUICK = ['defaults', 'basic', 'segments', 'communities']
-PROFILES_THOROUGH = PROFILES_QUICK + ['seq3', 'all']
+PROFILES_QUICK = ['defaults', 'basic', 'segments', 'communities', 'seq3']
+PROFILES_THOROUGH = PROFILES_QUICK + ['all']
 FILLER = [64512 + i for i in range(64)]  # concrete private ASNs making the long AS_PATH long
 
 
@@ -293,6 +306,11 @@ def mk_attributes(ctx, profile, nh_attr):
     return a, req
 
 
+def exc_name(exc):
+    t = type(exc)
+    return t.__name__ if t.__module__ == 'builtins' else '%s.%s' % (t.__module__, t.__name__)
+
+
 class BuildRefused(Exception):
     def __init__(self, what, how, exc):
         Exception.__init__(self, '%s %s %r' % (what, how, exc))
@@ -372,7 +390,6 @@ def check_attributes(ctx, neg, facts, tlvs, req, d, mp_only, nh4):
     asn4 = facts['asn4']
     defaults = rfc_defaults(facts)
     cause = local_as_cause(neg, facts)
-    ibgp_tag = 'ibgp' if facts['ibgp'] else 'ebgp'
 
     # flags: optional/transitive were checked by the decoder (attr_wellformed); partial must be 0 on locally originated
     # attributes (RFC 4271 4.3) and Extended Length is used iff the value is longer than 255 octets
@@ -405,7 +422,7 @@ def check_attributes(ctx, neg, facts, tlvs, req, d, mp_only, nh4):
         else:
             if facts['ibgp']:
                 ctx.cover('ibgp-empty-as-path')
-                sig = 'C01:default-as-path:ibgp-not-empty' if cause == 'wrong' else 'C01:default-as-path:ibgp4:' + cause
+                sig = 'C01:default-as-path:ibgp:' + ('not-empty' if cause == 'wrong' else cause)
             else:
                 ctx.cover('ebgp-local-as-path')
                 sig = 'C01:default-as-path:' + ('not-local-as' if cause == 'wrong' else cause)
@@ -414,7 +431,8 @@ def check_attributes(ctx, neg, facts, tlvs, req, d, mp_only, nh4):
     if asn4:
         ctx.check('no-as4-path-to-new-speaker', not has4, sig='C01:as4-path:sent-to-asn4-peer')
     else:
-        ctx.check('as4-path-iff-large-asn', large if has4 else s_not(large), sig='C01:as4-path:presence')
+        ctx.check('as4-path-iff-large-asn', large if has4 else s_not(large),
+                  sig='C01:as4-path:presence' if given else 'C01:default-as4-path:' + ('presence' if cause == 'wrong' else cause))
         if has4:
             ctx.cover('as-trans+as4-path')
             got4 = O.as_path(by[O.AS4_PATH][1], True, d)
@@ -442,7 +460,7 @@ def check_attributes(ctx, neg, facts, tlvs, req, d, mp_only, nh4):
             if O.LOCAL_PREF not in req:
                 ctx.cover('ibgp-localpref-default')
         else:
-            ctx.check(tag + '-present', False, sig='C01:%s:%s' % (tag, 'absent-on-ibgp' if cause == 'wrong' else 'ibgp4:' + cause))
+            ctx.check(tag + '-present', False, sig='C01:%s:ibgp:%s' % (tag, 'absent' if cause == 'wrong' else cause))
     else:
         ctx.check('no-local-pref-on-ebgp', O.LOCAL_PREF not in by, sig='C01:local-pref:sent-on-ebgp')
         if O.LOCAL_PREF not in by:
@@ -507,7 +525,8 @@ def check_announce(ctx, ann, fam, req, facts, nh_terms):
         ctx.check('no-path-id', ann['pid'] is None, sig='C01:nlri:path-id-without-add-path')
     ctx.check('mask', sx_eq(ann['mask'], req['mask']), sig='C01:nlri:mask')
     size = len(ann['prefix'])
-    ctx.check('prefix', first_bits_equal(ctx, ann['prefix'], req['prefix'], req['mask'], size), sig='C01:nlri:prefix')
+    if ctx.check('prefix-octets', size == req['size'], sig='C01:nlri:prefix-octet-count', info={'wire': size, 'want': req['size']}):
+        ctx.check('prefix', first_bits_equal(ctx, ann['prefix'], req['prefix'], req['mask'], size), sig='C01:nlri:prefix')
     if req['labels'] is not None:
         got = ann['labels'] or []
         ok = len(got) == len(req['labels'])
@@ -555,13 +574,13 @@ def decode(ctx, body, facts, fam, d):
 
 def pick_shape(ctx, tier, fam, kind):
     asn4 = True if kind == 'ebgp-peer4' else ctx.pick('peer-asn4', [True, False])
-    ap = ctx.pick('add-path', ['off', 'send', 'send-no-id', 'off-with-id'] if tier == 'thorough' else ['off', 'send', 'off-with-id'])
+    ap = ctx.pick('add-path', ['off', 'send', 'send-no-id', 'off-with-id'])
     addpath = ap in ('send', 'send-no-id')
     has_pid = ap in ('send', 'off-with-id')
-    if tier == 'thorough':
+    if fam['afi'] == 1:
         extnh, extmsg = ctx.pick('caps', [(False, False), (True, False), (False, True), (True, True)])
     else:
-        extnh, extmsg = ctx.pick('caps', [(False, False), (True, True)])
+        extnh, extmsg = False, ctx.pick('extended-message', [False, True])  # RFC 8950 concerns AFI 1 NLRI only
     return asn4, addpath, has_pid, extnh, extmsg
 
 
@@ -573,7 +592,10 @@ def h_route(ctx, tier, famname, kind, profiles):
     if not session_sane(ctx, neg, facts, fam):
         return 'session'
     profile = ctx.pick('profile', profiles)
-    nlri, req = mk_nlri(ctx, fam, tier, has_pid)
+    vary = profile == 'defaults'
+    if tier == 'thorough':
+        vary = profile in (('defaults', 'basic', 'seq3', 'communities') if fam['alen'] == 4 else ('defaults', 'basic'))
+    nlri, req = mk_nlri(ctx, fam, tier, has_pid, vary=vary)
     nh, ip = mk_nexthop(ctx, fam['alen'])
     nh_attr = NextHop.from_packet(nh)
     return run_one(ctx, neg, facts, fam, d, profile, [(nlri, req, nh, ip)], nh_attr)
@@ -585,14 +607,14 @@ def run_one(ctx, neg, facts, fam, d, profile, items, nh_attr):
     except BuildRefused as br:
         # the factory the text parser uses refused a value the operator can write
         ctx.cover('factory-refused')
-        ctx.check('route-expressible', False, sig='C01:%s:4-byte-asn-refused-by-%s-factory:%s' % (br.what, br.how, type(br.exc).__name__),
-                  info={'factory': br.how, 'raised': '%s: %s' % (type(br.exc).__name__, br.exc)})
+        ctx.check('route-expressible', False, sig='C01:%s:4-byte-asn-refused-by-%s-factory:%s' % (br.what, br.how, exc_name(br.exc)),
+                  info={'factory': br.how, 'raised': '%s: %s' % (exc_name(br.exc), br.exc)})
         return [profile, 'refused']
     routed = [RoutedNLRI(nlri, ip) for nlri, _, _, ip in items]
     out = emit(ctx, neg, routed, attributes)
     if isinstance(out, tuple):
-        ctx.check('emits', False, sig='C01:emit:raised:%s' % type(out[1]).__name__, info={'raised': '%s: %s' % (type(out[1]).__name__, out[1])})
-        return [profile, 'raised', type(out[1]).__name__]
+        ctx.check('emits', False, sig='C01:emit:raised:%s' % exc_name(out[1]), info={'raised': '%s: %s' % (exc_name(out[1]), out[1])})
+        return [profile, 'raised', exc_name(out[1])]
     want_msgs = len(set(id(i[3]) for i in items)) if (fam['afi'], fam['safi']) != (1, 1) or len(items[0][2]) != 4 else 1
     ctx.check('message-count', len(out) == want_msgs, sig='C01:emit:message-count', info={'messages': len(out), 'want': want_msgs})
     seen = []
@@ -603,7 +625,10 @@ def run_one(ctx, neg, facts, fam, d, profile, items, nh_attr):
         try:
             dec = decode(ctx, body, facts, fam, d)
         except O.Malformed as m:
-            ctx.check('well-formed', False, sig='C01:wire:malformed:%s:%s' % (m.what, m.code), info={'what': m.what, 'code': m.code})
+            sig = 'C01:wire:malformed:%s:%s' % (m.what, m.code)
+            if m.what == 'mp-nexthop-ipv6-without-rfc8950-capability':
+                sig = 'C01:next-hop:ipv6-next-hop-for-ipv4-nlri-without-rfc8950-capability'
+            ctx.check('well-formed', False, sig=sig, info={'what': m.what, 'code': m.code})
             return [profile, 'malformed', m.what]
         ctx.check('no-withdraw', not dec['withdraw'], sig='C01:wire:unexpected-withdraw')
         nh4 = items[0][2] if len(items[0][2]) == 4 else None
@@ -620,12 +645,25 @@ def run_one(ctx, neg, facts, fam, d, profile, items, nh_attr):
     return [profile, 'ok', codes]
 
 
+def same_destination(ctx, mask1, pfx1, size1, pid1, mask2, pfx2, size2, pid2):
+    """same prefix length, same first <length> bits, same path identifier -> bool | SBool"""
+    if size1 != size2:
+        return False
+    conds = [sx_eq(mask1, mask2), first_bits_equal(ctx, pfx1, pfx2, mask1, size1)]
+    if pid1 is not None and pid2 is not None:
+        conds.append(sx_eq(pid1, pid2))
+    return s_and(*conds)
+
+
 def match_two(ctx, seen, items, fam, facts):
-    """Two NLRIs: the wire order is ExaBGP's choice; decide which decoded entry is which requested one by the solver."""
+    """Two NLRIs: the wire order is ExaBGP's choice; which decoded entry is which requested one is decided by the solver
+    (fork), then each pair is compared in full."""
     a, b = items
-    same = s_and(sx_eq(seen[0]['mask'], a[1]['mask']), first_bits_equal(ctx, seen[0]['prefix'], a[1]['prefix'], a[1]['mask'], len(seen[0]['prefix']))
-                 if len(seen[0]['prefix']) == len(seen[1]['prefix']) or True else False)
-    if bool(same):
+    ra = a[1]
+    pid0 = O.u32(seen[0]['pid']) if seen[0]['pid'] is not None else None
+    first_is_a = same_destination(ctx, seen[0]['mask'], seen[0]['prefix'], len(seen[0]['prefix']), pid0,
+                                  ra['mask'], ra['prefix'], ra['size'], ra['pid'] if facts['addpath'] else None)
+    if bool(first_is_a):
         order = [(seen[0], a), (seen[1], b)]
     else:
         order = [(seen[0], b), (seen[1], a)]
@@ -658,7 +696,7 @@ def h_nexthop_self(ctx, tier, famname, v6):
         route = neighbor.routes[0]
         plen = {4: 24, 16: 48}[fam['alen']]
         pbytes = _socket.inet_pton(_socket.AF_INET6 if fam['alen'] == 16 else _socket.AF_INET, text.split()[1].split('/')[0])
-        req = {'mask': plen, 'prefix': pbytes, 'pid': None, 'labels': None, 'rd': None}
+        req = {'mask': plen, 'prefix': pbytes, 'pid': None, 'labels': None, 'rd': None, 'size': plen // 8}
         if fam['safi'] in (4, 128):
             req['labels'] = [1000]
         if fam['safi'] == 128:
@@ -671,7 +709,7 @@ def h_nexthop_self(ctx, tier, famname, v6):
         route = neighbor.resolve_self(Route(nlri, attrs, nexthop=IPSelf(afi)))
     out = emit(ctx, neg, [RoutedNLRI(route.nlri, route.nexthop)], route.attributes)
     if isinstance(out, tuple):
-        ctx.check('emits', False, sig='C01:nexthop-self:raised:%s' % type(out[1]).__name__, info={'raised': str(out[1])})
+        ctx.check('emits', False, sig='C01:nexthop-self:raised:%s' % exc_name(out[1]), info={'raised': str(out[1])})
         return [how, kind, 'raised']
     ctx.check('message-count', len(out) == 1, sig='C01:emit:message-count')
     for msg in out:
@@ -704,12 +742,12 @@ def h_two(ctx, tier, famname, two_hops):
     neg, facts = mk_session(fam, kind, True, addpath, False, False)
     if not session_sane(ctx, neg, facts, fam):
         return 'session'
-    n1, r1 = mk_nlri(ctx, fam, 'quick', addpath, tag='.a')
-    n2, r2 = mk_nlri(ctx, fam, 'quick', addpath, tag='.b')
+    classes = None if fam['alen'] == 4 else [(0, 0), (1, 8), (57, 64), (121, 128)]
+    n1, r1 = mk_nlri(ctx, fam, 'quick', addpath, tag='.a', classes=classes)
+    n2, r2 = mk_nlri(ctx, fam, 'quick', addpath, tag='.b', classes=classes, nlabels=(1,))
     # two different destinations (the same destination twice is one route: the RIB's business, C04)
-    differ = s_not(s_and(sx_eq(r1['mask'], r2['mask']), sx_eq(r1['prefix'], r2['prefix']),
-                         True if r1['pid'] is None else sx_eq(r1['pid'], r2['pid'])))
-    ctx.assume(differ, 'two/*: the two NLRIs differ in mask, prefix octets or path-id')
+    differ = s_not(same_destination(ctx, r1['mask'], r1['prefix'], r1['size'], r1['pid'], r2['mask'], r2['prefix'], r2['size'], r2['pid']))
+    ctx.assume(differ, 'two/*: the two NLRIs are different destinations (prefix length, prefix bits or path-id differ)')
     nh1, ip1 = mk_nexthop(ctx, fam['alen'], '.a')
     if two_hops:
         nh2, ip2 = mk_nexthop(ctx, fam['alen'], '.b')
@@ -740,33 +778,42 @@ def h_nh6(ctx, tier, famname):
 # ----------------------------------------------------------------------------- units
 
 
+def U(name, fn, **kw):
+    # hash_const: MPNLRICollection groups NLRIs in a dict keyed by the next-hop octets; with symbolic octets the dict probes by
+    # (symbolic) equality instead of enumerating the address
+    kw.setdefault('hash_const', True)
+    return Unit(name, fn, **kw)
+
+
 def units(tier):
     thorough = tier == 'thorough'
     us = []
-    fams = ['ipv4-unicast', 'ipv6-unicast', 'ipv4-nlri-mpls', 'ipv4-mpls-vpn'] + (['ipv6-mpls-vpn'] if thorough else [])
+    fams = ['ipv4-unicast', 'ipv6-unicast', 'ipv4-nlri-mpls', 'ipv4-mpls-vpn'] + (['ipv6-nlri-mpls', 'ipv6-mpls-vpn'] if thorough else [])
     profiles = PROFILES_THOROUGH if thorough else PROFILES_QUICK
+    budget = 1500 if thorough else 230
     for f in fams:
+        lab = FAMILIES[f]['safi'] != 1
         for kind in ('ibgp', 'ebgp'):
             cov = ['emitted', 'addpath-pathid', 'as-trans+as4-path', 'factory-refused', 'as4-aggregator']
             cov += ['ibgp-localpref-default', 'ibgp-empty-as-path'] if kind == 'ibgp' else ['ebgp-no-localpref', 'ebgp-local-as-path']
-            if FAMILIES[f]['safi'] != 1:
+            if lab:
                 cov += ['labels-1', 'labels-2']
-            us.append(Unit('%s/%s' % (f, kind), lambda ctx, f=f, k=kind: h_route(ctx, tier, f, k, profiles), must_cover=tuple(cov),
-                           max_seconds=1500 if thorough else 230, weight=100 * (3 if FAMILIES[f]['safi'] != 1 else 1)))
-    for f in (fams if thorough else ['ipv4-unicast']):
+            us.append(U('%s/%s' % (f, kind), lambda ctx, f=f, k=kind: h_route(ctx, tier, f, k, profiles), must_cover=tuple(cov),
+                        max_seconds=budget, weight=100 * (2 if lab else 1) * (2 if FAMILIES[f]['alen'] == 16 else 1)))
         for kind in ('ebgp-local4', 'ibgp4', 'ebgp-peer4'):
-            us.append(Unit('%s/%s' % (f, kind), lambda ctx, f=f, k=kind: h_route(ctx, tier, f, k, ['defaults', 'basic']),
-                           must_cover=('emitted',), max_seconds=1500 if thorough else 230, weight=40))
-    for kind in ('ibgp', 'ebgp'):
-        us.append(Unit('long-path/%s' % kind, lambda ctx, k=kind: h_route(ctx, 'quick', 'ipv4-unicast', k, ['long']),
-                       must_cover=('emitted', 'extended-length'), weight=60))
+            us.append(U('%s/%s' % (f, kind), lambda ctx, f=f, k=kind: h_route(ctx, tier, f, k, ['defaults', 'basic']),
+                        must_cover=('emitted', 'addpath-pathid'), max_seconds=budget, weight=40))
+    for f in (('ipv4-unicast', 'ipv6-unicast') if thorough else ('ipv4-unicast',)):
+        for kind in ('ibgp', 'ebgp'):
+            us.append(U('long-path/%s/%s' % (f, kind), lambda ctx, f=f, k=kind: h_route(ctx, 'quick', f, k, ['long']),
+                        must_cover=('emitted', 'extended-length'), weight=60))
     for f, v6 in (('ipv4-unicast', False), ('ipv6-unicast', True), ('ipv4-nlri-mpls', False), ('ipv4-mpls-vpn', False)):
-        us.append(Unit('nexthop-self/%s' % f, lambda ctx, f=f, v6=v6: h_nexthop_self(ctx, tier, f, v6), must_cover=('nexthop-self',), weight=20))
+        us.append(U('nexthop-self/%s' % f, lambda ctx, f=f, v6=v6: h_nexthop_self(ctx, tier, f, v6), must_cover=('nexthop-self',), weight=20))
     if thorough:
         for f in fams:
-            us.append(Unit('two/%s/one-hop' % f, lambda ctx, f=f: h_two(ctx, tier, f, False), must_cover=('emitted',), max_seconds=1200, weight=150))
+            us.append(U('two/%s/one-hop' % f, lambda ctx, f=f: h_two(ctx, tier, f, False), must_cover=('emitted',), max_seconds=1200, weight=150))
             if f != 'ipv4-unicast':
-                us.append(Unit('two/%s/two-hops' % f, lambda ctx, f=f: h_two(ctx, tier, f, True), must_cover=('emitted',), max_seconds=1200, weight=150))
-        for f in ('ipv4-unicast', 'ipv4-nlri-mpls', 'ipv4-mpls-vpn'):
-            us.append(Unit('nh6/%s' % f, lambda ctx, f=f: h_nh6(ctx, tier, f), must_cover=('rfc8950',), weight=30))
+                us.append(U('two/%s/two-hops' % f, lambda ctx, f=f: h_two(ctx, tier, f, True), must_cover=('emitted',), max_seconds=1200, weight=150))
+    for f in ('ipv4-unicast', 'ipv4-nlri-mpls', 'ipv4-mpls-vpn'):
+        us.append(U('nh6/%s' % f, lambda ctx, f=f: h_nh6(ctx, tier, f), must_cover=('rfc8950', 'emitted'), weight=30))
     return us
